@@ -683,6 +683,14 @@ func (x *sealedScn) transplant(w wrapping.Wrapper, rawX, clearX, rawY proto.Mess
 			if where == "" {
 				// e.g. the destination is a field the loader hands back as stored
 				r.Count("transplants_loaded_but_not_opened:"+typ+"."+fy.name, 1)
+				if !strings.HasPrefix(fy.name, "previous_encryption_key") {
+					// a slot the library opens on load: the foreign sealed value cannot have opened there,
+					// and the load reported nothing (the value was dropped or handed back sealed)
+					eb, _ := proto.Marshal(edited)
+					r.Violation("transplant-tolerated:"+typ+"."+fy.name,
+						fmt.Sprintf("sealed field %s of one %s record was copied into field %s of another (a field the library opens on load) and loading that record with the wrapper reports no error: the foreign value did not open and nothing says so (field %s of the loaded record has %d bytes)", fx.name, typ, fy.name, fy.name, len(fy.get(loaded))),
+						x.witness(sealedWitness{Record: typ + "/" + idY, Field: fx.name + " -> " + fy.name, StoredHex: hex.EncodeToString(eb), Detail: fmt.Sprintf("source record %q", sealedIDOf(rawX))}))
+				}
 				continue
 			}
 			eb, _ := proto.Marshal(edited)
